@@ -44,8 +44,12 @@ func hasByteCase(fi *core.FuncInfo, c int) bool {
 	info := fi.Pkg.TypesInfo
 	found := false
 	ast.Inspect(fi.Decl.Body, func(n ast.Node) bool {
-		if be, ok := n.(*ast.BinaryExpr); ok && be.Op == token.EQL {
+		// `x == c` and `x != c` both special-case the byte (the latter with the branches swapped)
+		if be, ok := n.(*ast.BinaryExpr); ok && (be.Op == token.EQL || be.Op == token.NEQ) {
 			if v, ok := constInt(info, be.Y); ok && v == c {
+				found = true
+			}
+			if v, ok := constInt(info, be.X); ok && v == c {
 				found = true
 			}
 		}
